@@ -210,6 +210,10 @@ func Eval(e *Expr, in []*V, env Env) ([]*V, error) {
 		}
 		return out, nil
 	case OpPipe:
+		if e.Post && len(in) == 0 && (e.R.Op == OpIndex || e.R.Op == OpSlice || e.R.Op == OpKey) {
+			// postfix indices are evaluated against the (empty) outer context: not a documented case
+			return nil, ErrDomain
+		}
 		l, err := Eval(e.L, in, env)
 		if err != nil {
 			return nil, err
